@@ -38,10 +38,11 @@ const life = 1800 // params.MaxTxLifeTime
 var t0 = node.GenesisTime + 100000 // base instant; T expires at t0+life
 
 // instants of the linear scenario (seconds relative to t0)
-var instants = []int{0, 1741, 1799, 1800, 1801, 1861}
+var instants = []int{-1, 0, 1741, 1799, 1800, 1801, 1861} // -1: one second more than the maximum lifetime before T expires
 
 type txset struct {
 	T, T2, U, B, Bt *types.Transaction // T2 = T re-encoded; B = box(T,U); Bt = box(U) (no T)
+	T3              *types.Transaction // T with a second signature, by an outsider, appended to its list
 	V               *types.Transaction // a payload expiring early (t0+10)
 }
 
@@ -51,6 +52,8 @@ func mkTxs() txset {
 	s.T = node.Transfer(node.User(0), node.User(1).Addr, node.Lemo(1), exp)
 	// the same signed payload with the other encoding of its signature
 	s.T2 = reencode(s.T)
+	// the same signed payload carrying one more signature that anybody can add (another tx hash)
+	s.T3 = appendSig(s.T, node.K("outsider"))
 	s.U = node.Transfer(node.User(2), node.User(1).Addr, node.Lemo(2), exp)
 	s.B = node.Box(node.User(3), exp, s.T, s.U)
 	s.V = node.Transfer(node.User(0), node.User(1).Addr, node.Lemo(3), uint64(t0+10))
@@ -60,6 +63,26 @@ func mkTxs() txset {
 func reencode(tx *types.Transaction) *types.Transaction {
 	un := types.NewTransaction(tx.From(), *tx.To(), tx.Amount(), tx.GasLimit(), tx.GasPrice(), tx.Data(), tx.Type(), tx.ChainID(), tx.Expiration(), tx.ToName(), tx.Message())
 	return withSig(un, node.ReencodeSig(tx.Sigs()[0]))
+}
+
+// appendSig returns tx with one more signature, made by k over the same signing hash, behind the
+// sender's own.
+func appendSig(tx *types.Transaction, k *node.Key) *types.Transaction {
+	extra := node.SignWith(types.NewTransaction(tx.From(), *tx.To(), tx.Amount(), tx.GasLimit(), tx.GasPrice(), tx.Data(), tx.Type(), tx.ChainID(), tx.Expiration(), tx.ToName(), tx.Message()), k.Priv).Sigs()[0]
+	b, err := tx.MarshalJSON()
+	if err != nil {
+		panic(err)
+	}
+	own := fmt.Sprintf(`"sigs":["0x%x"]`, tx.Sigs()[0])
+	s := strings.Replace(string(b), own, fmt.Sprintf(`"sigs":["0x%x","0x%x"]`, tx.Sigs()[0], extra), 1)
+	if s == string(b) {
+		panic("harness: cannot append signature: " + string(b))
+	}
+	var out types.Transaction
+	if err := out.UnmarshalJSON([]byte(s)); err != nil {
+		panic(err)
+	}
+	return &out
 }
 
 // withSig attaches raw signature bytes through the JSON form (the only public way to set them).
@@ -87,6 +110,8 @@ func (s txset) list(name string) types.Transactions {
 		return types.Transactions{s.T}
 	case "T2":
 		return types.Transactions{s.T2}
+	case "T3":
+		return types.Transactions{s.T3}
 	case "U":
 		return types.Transactions{s.U}
 	case "B":
@@ -105,23 +130,15 @@ func (s txset) list(name string) types.Transactions {
 
 var txs txset
 
-// payloadID identifies what the user signed: the signing hash and the recovered signer(s).
+// payloadID identifies what the user signed: the signing hash, which covers the sender, the
+// content and the expiration. Neither the encoding of a signature nor additional signatures that
+// anybody can append to the list make it another payment of the sender's.
 func payloadID(tx *types.Transaction) string {
 	var signer types.Signer = types.MakeSigner()
 	if len(tx.GasPayerSigs()) > 0 {
 		signer = types.MakeReimbursementTxSigner()
 	}
-	h := signer.Hash(tx)
-	addrs, err := signer.GetSigners(tx)
-	if err != nil {
-		return "unrecoverable:" + h.Hex()
-	}
-	l := make([]string, len(addrs))
-	for i, a := range addrs {
-		l[i] = a.Hex()
-	}
-	sort.Strings(l)
-	return h.Hex()[:18] + "/" + strings.Join(l, ",")
+	return signer.Hash(tx).Hex()[:18]
 }
 
 func executed(b *types.Block) []*types.Transaction {
@@ -194,11 +211,13 @@ func checkLedger(n *node.Node, viol func(fp, what string)) (branches int, execut
 func placement(blocks map[common.Hash]*types.Block, leaf *types.Block, id string) string {
 	kinds := map[string]bool{}
 	hashes := map[common.Hash]bool{}
+	sigCounts := map[int]bool{}
 	for b := leaf; b != nil && b.Height() > 0; b = blocks[b.ParentHash()] {
 		for _, tx := range b.Txs {
 			if payloadID(tx) == id {
 				kinds["bare"] = true
 				hashes[tx.Hash()] = true
+				sigCounts[len(tx.Sigs())] = true
 			}
 			if tx.Type() == params.BoxTx {
 				if box, err := types.GetBox(tx.Data()); err == nil {
@@ -206,6 +225,7 @@ func placement(blocks map[common.Hash]*types.Block, leaf *types.Block, id string
 						if payloadID(s) == id {
 							kinds["boxed"] = true
 							hashes[s.Hash()] = true
+							sigCounts[len(s.Sigs())] = true
 						}
 					}
 				}
@@ -213,7 +233,11 @@ func placement(blocks map[common.Hash]*types.Block, leaf *types.Block, id string
 		}
 	}
 	if len(hashes) > 1 {
-		kinds["different-tx-hash(re-encoded signature)"] = true
+		if sigCounts[1] && len(sigCounts) > 1 {
+			kinds["different-tx-hash(signature appended)"] = true
+		} else {
+			kinds["different-tx-hash(re-encoded signature)"] = true
+		}
 	} else {
 		kinds["same-tx-hash"] = true
 	}
@@ -399,8 +423,8 @@ func (w *world) parentOf(b *types.Block) *types.Block {
 }
 
 var lists = map[string][]string{
-	"lin":   {"-", "T", "T2", "B", "TT", "TB", "V"},
-	"fork":  {"-", "T", "T2", "B", "U"},
+	"lin":   {"-", "T", "T2", "T3", "B", "TT", "TB", "V"},
+	"fork":  {"-", "T", "T2", "T3", "B", "U"},
 	"miner": {"T", "U"},
 }
 
@@ -455,12 +479,15 @@ func (w *world) enabled(evs []string, results []string) []string {
 }
 
 func (w *world) nameOf(b *types.Block) string {
+	// several names can denote one block (the same block built twice): take the smallest, so that the
+	// answer does not depend on Go's map iteration order
+	best := "?"
 	for k, c := range w.named {
-		if c.Hash() == b.Hash() {
-			return k
+		if c.Hash() == b.Hash() && (best == "?" || len(k) < len(best) || (len(k) == len(best) && k < best)) {
+			best = k
 		}
 	}
-	return "?"
+	return best
 }
 
 func (w *world) rankOf(b *types.Block) int {
@@ -587,6 +614,9 @@ func main() {
 	txs = mkTxs()
 	if core.Thorough() {
 		depth = map[string]int{"lin": 4, "fork": 4, "miner": 5}
+	} else {
+		// quick: without the instant 59 s before the last second of the window (bucket edge inside the window)
+		instants = []int{-1, 0, 1799, 1800, 1801, 1861}
 	}
 	safe := core.SafeRun(prop, run)
 	if core.Opt.Replay != "" {
